@@ -425,6 +425,45 @@ def poly(m, raw):
     return acc
 
 
+def check_old_views(run, m, site):
+    """Views (DataView objects) obtained earlier keep showing what the array holds *now* - content,
+    calibration, element type -, also when it was changed through another object in between.
+    Windows are re-made when the extents change; handles and views are dropped at restart."""
+    key = m.uid
+    if m.data.ndim < 1 or not m.data.size:
+        run.view_pool.pop(key, None)
+        return
+    shape = tuple(int(x) for x in m.data.shape)
+    ent = run.view_pool.get(key)
+    if ent is None or ent["shape"] != shape:
+        ent = run.view_pool[key] = {"shape": shape, "views": []}
+    want_all = M.model_read(m)
+    if want_all.shape != m.data.shape:
+        want_all = want_all.reshape(m.data.shape)
+    for view, index in ent["views"]:
+        got = run.call(lambda: np.asarray(view[:]))
+        if got[0] == "exc":
+            run.violation("array_read", site, "older_view_raises:" + type(got[1]).__name__, repr(got[1])[:200])
+        _cmp(run, site, "older_view", _norm(got[1], m.is_text), _norm(want_all[index], m.is_text))
+        run.stats["older_view_reads"] += 1
+    if len(ent["views"]) < 2:
+        r = random.Random(zlib.crc32(repr((m.name, shape, len(ent["views"]), "oldview")).encode()))
+        pos = [r.randrange(e) for e in shape]
+        ext = [r.randint(1, e - p) for e, p in zip(shape, pos)]
+        h = run.R(m, 0)
+        rr = run.call(lambda: h.get_slice(pos, ext))
+        if rr[0] == "exc":
+            run.violation("array_read", site, "get_slice_raises:" + type(rr[1]).__name__, repr(rr[1])[:200])
+        view = rr[1]
+        index = tuple(slice(p, p + e) for p, e in zip(pos, ext))
+        got = run.call(lambda: np.asarray(view[:]))       # first read: whatever the view memoises, it has now
+        if got[0] == "exc":
+            run.violation("array_read", site, "view_read_raises:" + type(got[1]).__name__, repr(got[1])[:200])
+        _cmp(run, site, "view_all", _norm(got[1], m.is_text), _norm(want_all[index], m.is_text))
+        ent["views"].append((view, index))
+        run.keep.append(view)
+
+
 def check_views(run, m, h, site):
     """Index-mode views read through the parent's calibration; slicing and calibration commute."""
     if m.data.ndim < 1 or not m.data.size:
